@@ -638,9 +638,16 @@ verus_unit(
 QF = [M + "quantize.rs::<LeakilyQuantizedDistribution as DecoderModel>::quantile_function"]
 kani("models::quantizer_search_small_u8", ["C03", "C10", "C20"], kind="bounded", bound="supports of <= 8 u8 symbols anywhere in the type (incl. at 0 and 255); step-shaped CDFs; all hints, quantiles", timeout=1500, fns=QF,
      text="search terminates, symbol in support, interval holds the quantile, == encoder view; wrong hints and supports touching Symbol::MIN/MAX included")
-kani("models::quantizer_search_i8_wide", ["C10", "C03"], kind="bounded", bound="support -100..=100 (i8, wider than half the type), step-shaped CDFs, hints below/inside/above the support, every quantile", timeout=2400, fns=QF,
-     loop_contract=(["C10", "C03"], "quantile_function's search loops finish within 40 iterations: <= 8 doublings + <= 8 halvings + <= 8 binary-search steps per phase"),
+kani("models::quantizer_search_i8_wide", ["C10", "C03"], kind="bounded", bound="support -100..=100 (i8, wider than half the type), step-shaped CDFs, hints below/inside/above the support, every quantile", timeout=3600, fns=QF, tier="thorough",
+     loop_contract=(["C10", "C03"], "quantile_function's search loops finish within 40 iterations: <= 7 doublings + <= 4 moves at the largest step + <= 7 halvings, inner loop <= 8"),
      text="terminates within the loop contract; symbol in support; interval holds the quantile; == encoder view")
+kani("models::quantizer_search_i8_wide_tails", ["C10", "C03"], kind="bounded", bound="support -100..=100 (i8), all mass beyond one end and the hint at the other end, every quantile", timeout=1800, fns=QF,
+     loop_contract=(["C10", "C03"], "quantile_function's search loops finish within 24 iterations: <= 7 doublings (1..64) + <= 4 moves at the largest step across 201 symbols + <= 7 halvings, inner loop <= 8"),
+     text="terminates within the loop contract (found: step doubling into the sign bit never terminates); symbol in support; interval holds the quantile; == encoder view")
+kani("models::quantizer_view_i8_u16_wide", ["C03", "C09"], fns=[M + "quantize.rs::slack", M + "quantize.rs::<LeakilyQuantizedDistribution as EncoderModel>::left_cumulative_and_probability"],
+     text="signed symbols narrower than the probability type, support wider than half the symbol type: every in-support symbol gets a non-empty interval, consecutive with its successor, first starts at 0, last ends at 2^P; others impossible (any step CDF)")
+kani("models::quantizer_symbol_table_i8_u16_wide", ["C05"], kind="bounded", bound="one concrete step CDF, all 201 rows", timeout=1800,
+     fns=[M + "quantize.rs::LeakilyQuantizedDistributionIter::next"], text="all 201 rows of symbol_table == encoder view (rows whose symbol - min exceeds i8::MAX included)")
 kani("models::quantizer_search_small_i8", ["C03", "C10", "C20"], kind="bounded", bound="supports of <= 8 i8 symbols anywhere in the type; step-shaped CDFs", timeout=3600, tier="thorough", fns=QF)
 kani("models::quantizer_search_u8_full", ["C03", "C10", "C20"], kind="bounded", bound="support 0..=255, step-shaped CDFs", timeout=3600, tier="thorough", fns=QF)
 kani("models::quantizer_search_u8_top", ["C03", "C10", "C20"], kind="bounded", bound="support 100..=255, step-shaped CDFs", timeout=3600, tier="thorough", fns=QF)
